@@ -233,6 +233,16 @@ class C09(SeqProp):
                     else:
                         m = s.emit("OpCounterVec", "NU", o, vars_); c = s.emit("OpWith", m, ["x%d" % j]); s.emit("OpInc", c)
                     metrics.append(m)
+        # a vector whose variable labels (2-3 names, in any order, not sorted) contain one of the registry's common label names
+        # at a random position: register must refuse it whatever the position
+        if labels and r.random() < 0.4:
+            clash = r.choice([k for k, _ in labels])
+            if _RE_L.match(clash) and clash != "le":
+                others = r.sample(["zz", "mm", "aa", "b2", "_q"], r.randint(1, 2))
+                vars_ = others + [clash]; r.shuffle(vars_)
+                v = s.emit("OpCounterVec", "NU", mkopts(mname(r, 1.0), "clash"), vars_)
+                c = s.emit("OpWith", v, ["x"] * len(vars_)); s.emit("OpInc", c)
+                metrics.append(v)
         for reg in regs:
             order = list(metrics); r.shuffle(order)
             for m in order:
@@ -264,6 +274,11 @@ class C09(SeqProp):
 
     # fixed scenarios: the recorded (repaired) defects and a few hand-picked shapes, always run first
     corpus = [
+        # a clash between a common label and a variable label that is neither first nor last in declaration order
+        [("OpRegistry", None, [("zone", "eu")]), ("OpCounterVec", "NU", mkopts("rq", "h"), ["zone", "method", "app"]),
+         ("OpWith", 1, ["a", "b", "c"]), ("OpInc", 2), ("OpRegister", 0, 1), ("OpGather", 0),
+         ("OpCounterVec", "NU", mkopts("rq2", "h"), ["method", "zone", "app"]), ("OpWith", 3, ["a", "b", "c"]), ("OpInc", 4),
+         ("OpRegister", 0, 3), ("OpGather", 0)],
         # two collectors of one family under a registry with common labels: every sample gets each common label exactly once
         [("OpRegistry", "p", [("az", "1"), ("region", "2")]), ("OpCounter", "NU", mkopts("x", "h", consts=[("k", "1")])),
          ("OpCounter", "NU", mkopts("x", "h", consts=[("k", "2")])), ("OpCounter", "NU", mkopts("x", "h", consts=[("k", "3")])),
